@@ -108,7 +108,25 @@ def oracle(ctx, case, steps, ctor_err):
                             ctx.fail(suites.slim(case), f'level {lvl}: bond {na}-{nb} inside coarse node {k} has no template bond')
 
 
+def alias_case(rng):
+    """two fragment names with the SAME definition text: the copies are equal, the names they report are not"""
+    aa = rng.random() < 0.6
+    text = rng.choice(['[$]CCCC[$]', '[$]COC[$]', '[>]CC(C)[<]', '[$]C(=O)N[$]']) if aa else \
+        rng.choice(['[$][#a][#b][$]', '[>][#x]([#y])[<]', '[$][#m][$]'])
+    names = ['P1', 'SP1'] if rng.random() < 0.5 else ['Q', 'R']
+    n = rng.randint(2, 5)
+    seq = [rng.choice(names) for _ in range(n)]
+    seq[rng.randrange(n)] = names[0]
+    seq[(seq.index(names[0]) + 1) % n] = names[1]
+    defs = ['#%s=%s' % (nm_, text) for nm_ in (names if rng.random() < 0.5 else names[::-1])]
+    return {'kind': 'alias', 's': '{' + ''.join('[#%s]' % x for x in seq) + '}.{' + ','.join(defs) + '}', 'all_atom': aa}
+
+
 def run(ctx):
+    rng_a = ctx.rng('alias')
+    for _ in range(ctx.budget(40, 600)):
+        suites.run_resolve_case(ctx, 'alias-names', alias_case(rng_a), oracle=oracle)
+    ctx.feature('alias-names')
     rng = ctx.rng('resolve')
     n = ctx.budget(500, 8000)
     for i in range(n):
